@@ -47,7 +47,7 @@ SIM_CHECKS = [
     ("C01", "model_checking", sim_text("Decides exactly-once in-order intact delivery and eventual delivery of retained samples."), "5.1, 6 C01"),
     ("C02", "model_checking", sim_text("Decides the best-effort subsequence/no-duplicate/no-corruption property."), "5.1, 6 C02"),
     ("C03", "model_checking", sim_text("Decides soundness of wait_for_acknowledgments (success implies delivery) and its completion after heal, reader deletion and silent participant departure."), "5.1, 6 C03"),
-    ("C04", "model_checking", sim_text("Decides durability: history for late TRANSIENT_LOCAL readers (per-instance depth), none for VOLATILE, wait_for_historical_data."), "5.1, 6 C04"),
+    ("C04", "model_checking", sim_text("Decides durability: history for late TRANSIENT_LOCAL readers (per-instance depth), none for VOLATILE, wait_for_historical_data. Trace_Hist.tla covers a reader matched with two or three TRANSIENT_LOCAL writers (one per participant, the user traffic of one held back): wait_for_historical_data may only return Ok when every sample written so far is presented by the next take."), "5.1, 6 C04"),
     ("C05", "model_checking", sim_text("Decides fragment numbering/length/reassembly for fragment sizes 8..65000 at payload sizes k*f-4, k*f, k*f+4 under fragment-level faults."), "5.1, 6 C05"),
     ("C16", "model_checking", "Trace_Discovery.tla states the matched set of every endpoint as a function of the live, compatible (Compat rules), reachable, non-ignored remote endpoints and derives current_count/total_count/change fields from the history of match events; randomized histories of remote endpoint creation, QoS update (compatible and incompatible), deletion, participant deletion and silent departure interleaved with status reads, plus deterministic families (silent departure beyond the lease for reliable/best-effort writers and readers; every three-step deadline history of a remote reader) are executed by real participants in the deterministic simulation and every observed status is compared by TLC with the specification's value; emissions to departed readers are flagged.", "5.3, 6 C16"),
     ("C17", "model_checking", "Trace_Discovery.tla gives, for every observation of get_discovered_participants, the participants that must and must not be known: same domain id and tag, not ignored, lease window [last communication + lease, + one worker period] for silent participants, rediscovery after heal. Scenario families (isolation by domain/tag, lease expiry with virtual time, rediscovery, ignore, announcement loss) run on real participants in the simulation and are validated event by event by TLC.", "5.3, 6 C17"),
